@@ -140,5 +140,97 @@ def r4(ctx):
     exp = ['closure-arg-1'] * 2 + ['call:remaining'] * 4 + ['index::index(data, RangeFrom{start: HEADER_SIZE})']
     ctx.check('deserialize|mac-from-remaining', sorted(args) == sorted(exp), 'MAC parsed from %s' % args, sample=args)
 
-RULES = [r1, r2, r3, r4]
-FLOORS = {'C24-R1': 29, 'C24-R2': 30, 'C24-R3': 4, 'C24-R4': 12}
+# decoder function -> the encoder that inverts it (scalar field codecs of the fixed header)
+INVERSE = {
+    'NtpLeapIndicator::from_bits': 'NtpLeapIndicator::to_bits', 'NtpAssociationMode::from_bits': 'NtpAssociationMode::to_bits',
+    'NtpMode::from_bits': 'NtpMode::to_bits', 'NtpTimescale::from_bits': 'NtpTimescale::to_bits', 'NtpFlags::from_bits': 'NtpFlags::as_bits',
+    'PollInterval::from_byte': 'PollInterval::as_byte', 'NtpDuration::from_bits_short': 'NtpDuration::to_bits_short',
+    'NtpDuration::from_bits_time32': 'NtpDuration::to_bits_time32', 'ReferenceId::from_bytes': 'ReferenceId::to_bytes',
+    'NtpTimestamp::from_bits': 'NtpTimestamp::to_bits',
+}
+
+
+def header_layouts(ctx, hpath, hname):
+    """(decoder map, encoder map): field -> (first byte, length, codec function or None) recovered from the header literal of
+    deserialize and from the ordered write_all calls of serialize."""
+    P = ctx.P
+    d = P.body(hpath + '::deserialize')
+    lit = one(d.aggregates(r'%s$' % hname), '%s literal in deserialize' % hname)
+    dec = {}
+    for n, o in zip(lit.data['rv']['fields'], lit.data['rv']['ops']):
+        v = S(d.operand_term(o))
+        m = re.search(r'index::index\(data, Range\{start: (\d+), end: (\d+)\}\)', v)
+        m1 = re.search(r'data\[(\d+)\]', v)
+        fn = re.match(r'^(?:\(Result::branch\()?(\w+::\w+)\(', v)
+        if m:
+            dec[n] = (int(m.group(1)), int(m.group(2)) - int(m.group(1)), fn.group(1) if fn else None, v)
+        elif m1:
+            dec[n] = (int(m1.group(1)), 1, fn.group(1) if fn else None, v)
+        else:
+            dec[n] = (None, None, None, v)
+    e = P.body(hpath + '::serialize')
+    ws = e.calls(r'write_all$')
+    # the writes form a chain: order them by reachability
+    ws = sorted(ws, key=lambda c: sum(1 for o in ws if o is not c and e.can_reach(o.bb, c.bb)))
+    enc = {}
+    off = 0
+    linear = all(e.can_reach(a.bb, b.bb) and not e.can_reach(b.bb, a.bb) for a, b in zip(ws, ws[1:]))
+    for c in ws:
+        o = c.data['args'][1]
+        ds = [x for x in (e.defs().get(o['place']['l']) or []) if x[2] == 'assign'] if o.get('k') in ('copy', 'move') else []
+        n = None
+        if len(ds) == 1 and ds[0][3].get('k') == 'cast':
+            m = re.match(r'^&\[u8; (\d+)\]$', ds[0][3]['o'].get('place', {}).get('ty', ''))
+            n = int(m.group(1)) if m else None
+        t = unlet(expand(e.call_args(c)[1]))
+        if n is None:
+            return dec, None, False
+        parts = [a for _, a in t[3]] if t[0] == 'agg' and t[1] == 'array' else [t]
+        per = n // len(parts) if len(parts) > 1 else n
+        for i, a in enumerate(parts):
+            sa = tstr(a)
+            for fld in re.findall(r'self\.(\w+)', sa):
+                fn = re.search(r'(\w+::\w+)\(self\.%s\)' % fld, sa)
+                enc[fld] = (off + i * per, per if len(parts) > 1 else n, fn.group(1) if fn else None, sa)
+        off += n
+    return dec, enc, linear and off
+
+
+def r5(ctx):
+    ctx.rule('C24-R5', 'fixed header layout: every field the decoder reads from bytes [a, a+n) is written by the encoder at the same offset with the same '
+             'length through the inverse codec function (NTPv3/4 and NTPv5 headers, 48 bytes each); the 32-bit duration codecs agree: the decoder '
+             'reads an unsigned u32 and shifts left by the amount the encoder shifts right (the encoder asserts the value is non-negative)')
+    P = ctx.P
+    for hpath, hname, tag in ((PK + '::NtpHeaderV3V4', 'NtpHeaderV3V4', 'v3v4'), (PK + '::v5::NtpHeaderV5', 'NtpHeaderV5', 'v5')):
+        dec, enc, total = header_layouts(ctx, hpath, hname)
+        ctx.check('%s|encoder-linear-48' % tag, enc is not None and total == 48, 'the header encoder does not write 48 bytes in one fixed sequence (%s)' % total, sample=total)
+        if not enc:
+            continue
+        for fld, (a, n, fn, v) in sorted(dec.items()):
+            if a is None:
+                ctx.check('%s|%s|decoded-from-bytes' % (tag, fld), False, 'field %s is decoded from `%s`' % (fld, v[:100]))
+                continue
+            ea = enc.get(fld)
+            ok = ea is not None and ea[0] == a and ea[1] == n and (INVERSE.get(fn) == ea[2] if fn in INVERSE else (fn is None or fn.startswith('Result::')) and ea[2] is None)
+            ctx.check('%s|%s|same-place-inverse-codec' % (tag, fld), ok, 'field %s: decoded from bytes %s..%s with %s, encoded %s' % (
+                fld, a, a + n, fn, 'nowhere' if ea is None else 'at %s..%s with %s' % (ea[0], ea[0] + ea[1], ea[2])), sample=[a, n, fn, ea[2] if ea else None])
+        ctx.check('%s|no-extra-encoded-field' % tag, set(enc) <= set(dec), 'encoded but not decoded: %s' % sorted(set(enc) - set(dec)), sample=sorted(enc))
+    T = 'ntp_proto::time_types::NtpDuration::'
+    for dn, en, sh in (('from_bits_short', 'to_bits_short', 16), ('from_bits_time32', 'to_bits_time32', 4)):
+        db, eb = P.body(T + dn), P.body(T + en)
+        dv = [v for _, v in ret_assigns(db)]
+        src = [db.callee(c)['def'] for c in db.calls(r'from_be_bytes$')]
+        ctx.check('NtpDuration|%s|unsigned-shift' % dn, dv == ['NtpDuration{duration: ((num::from_be_bytes(bits) as i64) << %d)}' % sh] and len(src) == 1 and '<impl u32>' in src[0],
+                  '%s is %s via %s: a value with the top bit set must decode to a non-negative duration (the encoder asserts duration >= 0)' % (dn, dv, src), sample=[dv, src])
+        ev = [v for _, v in ret_assigns(eb)]
+        dst = [eb.callee(c)['def'] for c in eb.calls(r'to_be_bytes$')]
+        ctx.check('NtpDuration|%s|same-shift' % en, len(ev) == 1 and re.search(r'self\.duration( & \d+\))? >> %d\)' % sh, ev[0]) is not None and len(dst) == 1 and '<impl u32>' in dst[0],
+                  '%s is %s' % (en, ev), sample=ev)
+    ts = 'ntp_proto::time_types::NtpTimestamp::'
+    dv = [v for _, v in ret_assigns(P.body(ts + 'from_bits'))]
+    ev = [v for _, v in ret_assigns(P.body(ts + 'to_bits'))]
+    ctx.check('NtpTimestamp|bits-codec', dv == ['NtpTimestamp{timestamp: num::from_be_bytes(bits)}'] and ev == ['num::to_be_bytes(self.timestamp)'], 'NtpTimestamp codec %s / %s' % (dv, ev), sample=[dv, ev])
+
+
+RULES = [r1, r2, r3, r4, r5]
+FLOORS = {'C24-R1': 29, 'C24-R2': 30, 'C24-R3': 4, 'C24-R4': 12, 'C24-R5': 30}
